@@ -350,7 +350,8 @@ def run(ctx):
         good = []
         for m, nm in enumerate(names, 1):
             good += [(m, m), (str(m), m), (f"{m:02d}", m), (nm, m), (nm.lower(), m), (nm.upper(), m), (nm[:3], m), (nm[:3].upper(), m), (nm[:3].lower(), m), (datetime(2020, m, 15), m)]
-        bad = [0, 13, -1, 100, "0", "13", "Foo", "", "Janu", "1.5", "13th", "00"]
+            good += [(np.int64(m), m), (np.int32(m), m), (np.uint8(m), m)]  # a number is a number (cf. the bare numbers of unit fields)
+        bad = [0, 13, -1, 100, "0", "13", "Foo", "", "Janu", "1.5", "13th", "00", np.int64(0), np.int64(13), np.uint8(200), np.int32(-3)]
         for given, want in good:
             ctx.count("month")
             ctx.distinct.add(("month", repr(given)))
